@@ -58,6 +58,118 @@ func c06GuardSpecs() []GuardSpec {
 	}
 }
 
+// c06WithLockExempts adds two justified exemptions to the guard specs, both
+// about code the shared lockset engine cannot attribute to a lock holder:
+//   - dead code: an unexported function that nothing calls or references;
+//   - a closure that runs synchronously inside its parent: it is created where
+//     the parent holds the lock in a sufficient mode (until its return) and is
+//     only called, or handed to a call, there — never `go`, never stored.
+// Each closure exemption is recorded as an obligation of its own.
+func c06WithLockExempts(c *Ctx, R string, specs []GuardSpec, pkgs []string) []GuardSpec {
+	all := c05ModuleFuncs(c.P)
+	referenced := map[*ssa.Function]bool{}
+	for _, f := range all {
+		AllInstrs(f, func(in ssa.Instruction) {
+			for _, op := range in.Operands(nil) {
+				if g, ok := (*op).(*ssa.Function); ok {
+					referenced[g] = true
+				}
+			}
+			if mc, ok := in.(*ssa.MakeClosure); ok {
+				referenced[mc.Fn.(*ssa.Function)] = true
+			}
+		})
+	}
+	var fns []*ssa.Function
+	for _, p := range pkgs {
+		fns = append(fns, c.P.FuncsOfPkg(p)...)
+	}
+	out := make([]GuardSpec, len(specs))
+	for i, sp := range specs {
+		ex := map[string]string{}
+		for k, v := range sp.Exempt {
+			ex[k] = v
+		}
+		fields := map[string]bool{}
+		for _, f := range sp.Fields {
+			fields[f] = true
+		}
+		for _, f := range fns {
+			accs := fieldAccesses(f, sp.Type, fields)
+			if len(accs) == 0 {
+				continue
+			}
+			if f.Parent() == nil {
+				if !referenced[f] && f.Object() != nil && !f.Object().Exported() && f.Name() != "init" {
+					ex[FnName(f)] = "dead code: nothing calls or references this unexported function"
+				}
+				continue
+			}
+			// closure
+			par := f.Parent()
+			var mc *ssa.MakeClosure
+			AllInstrs(par, func(in ssa.Instruction) {
+				if m, ok := in.(*ssa.MakeClosure); ok && m.Fn == ssa.Value(f) {
+					mc = m
+				}
+			})
+			if mc == nil {
+				continue
+			}
+			sync := true
+			var uses []ssa.Instruction
+			for _, r := range *mc.Referrers() {
+				switch u := r.(type) {
+				case *ssa.Call:
+					uses = append(uses, u)
+				case *ssa.DebugRef:
+				default:
+					sync = false
+				}
+			}
+			if !sync {
+				continue
+			}
+			held := heldAt(par, heldSet{})
+			okAll := true
+			need := modeR
+			for _, a := range accs {
+				if a.Mode > need {
+					need = a.Mode
+				}
+				// the guarded object as the parent sees it
+				var base ssa.Value
+				if ld, ok := a.Base.(*ssa.UnOp); ok {
+					if fv, ok := ld.X.(*ssa.FreeVar); ok {
+						if bs := freeVarBindings(fv); len(bs) == 1 {
+							if al, ok := bs[0].(*ssa.Alloc); ok {
+								base = c05SingleStoredValue(al)
+							}
+						}
+					}
+				}
+				if base == nil {
+					okAll = false
+					continue
+				}
+				lp := accessPath(base) + "." + sp.Lock
+				for _, at := range append([]ssa.Instruction{mc}, uses...) {
+					if held[at][lp] < a.Mode {
+						okAll = false
+					}
+				}
+			}
+			if okAll {
+				ex[FnName(f)] = "closure that runs synchronously inside " + FnName(par) + " while it holds " + sp.Lock
+				c.OK(R, FnName(f)+"|"+sp.Type+"|closure-runs-under-parents-lock", mc.Pos(), "created and used only where "+FnName(par)+" holds "+sp.Lock+" in "+modeName(need, "read", "write")+" mode; never started as a goroutine or stored")
+			}
+		}
+		sp.Exempt = ex
+		out[i] = sp
+	}
+	return out
+}
+
 // c06UnsafeExempt: the methods of the lock-free view type (found by role: the
 // struct that wraps a *Store) that read the store's fields without s.sync.
 func c06UnsafeExempt() map[string]string {
@@ -96,7 +208,7 @@ func c06R1(c *Ctx) {
 		}
 	}
 	pkgs := []string{"internal/resolver", "internal/graph", "content/oci", "content/file", "content/memory"}
-	LockCheck(c, R, append(c06GuardSpecs(), c06GraphSpec()), pkgs)
+	LockCheck(c, R, c06WithLockExempts(c, R, append(c06GuardSpecs(), c06GraphSpec()), pkgs), pkgs)
 	c06UnsafeStore(c, R)
 	c06ConstructionOnly(c, R, "(*~/content/oci.Store).loadIndexFile")
 	c06BlobRemovalExclusive(c, R)
